@@ -55,6 +55,9 @@ func (h *H) totality(root *vlib.Rand) {
 	// a. arbitrary bytes and token soup
 	n := vlib.Scale(3000, 300000)
 	for i := 0; i < n; i++ {
+		if !h.mine(i) {
+			continue
+		}
 		r := root.SplitN("arb", i)
 		var b []byte
 		if r.Bool() {
@@ -108,6 +111,9 @@ func (h *H) totality(root *vlib.Rand) {
 	// e. byte mutations and every truncation point of valid messages
 	nm := vlib.Scale(400, 40000)
 	for i := 0; i < nm; i++ {
+		if !h.mine(i) {
+			continue
+		}
 		r := root.SplitN("mutate", i)
 		for si, s := range validSamples(r) {
 			b := append([]byte(nil), s...)
@@ -181,9 +187,26 @@ func TestVerifC12(t *testing.T) {
 		res.Note("wall_s:"+name, time.Since(t0).Seconds())
 		t0 = time.Now()
 	}
+	// thorough runs are split over shards: case i belongs to shard i mod n
+	si, ns := vlib.Shard()
+	mine := func(i int) bool { return i%ns == si }
+	count := func(n int) int {
+		c := 0
+		for i := 0; i < n; i++ {
+			if mine(i) {
+				c++
+			}
+		}
+		return c
+	}
+	h.mine = mine
+
 	// law 1
-	nRT := vlib.Scale(5000, 400000)
+	nRT := vlib.Scale(5000, 100000)
 	for i := 0; i < nRT; i++ {
+		if !mine(i) {
+			continue
+		}
 		h.rtPollReq(root.SplitN("rt-pollreq", i), fmt.Sprintf("rt/pollreq/%d", i))
 		h.rtPollResp(root.SplitN("rt-pollresp", i), fmt.Sprintf("rt/pollresp/%d", i))
 		h.rtAnsReq(root.SplitN("rt-ansreq", i), fmt.Sprintf("rt/ansreq/%d", i))
@@ -195,8 +218,11 @@ func TestVerifC12(t *testing.T) {
 
 	lap("law1-roundtrip")
 	// law 2
-	nHand := vlib.Scale(150, 12000)
+	nHand := vlib.Scale(100, 2400)
 	for i := 0; i < nHand; i++ {
+		if !mine(i) {
+			continue
+		}
 		h.handPollReq(root.SplitN("hand-pollreq", i), fmt.Sprintf("hand/pollreq/%d", i))
 		h.handPollResp(root.SplitN("hand-pollresp", i), fmt.Sprintf("hand/pollresp/%d", i))
 		h.handAnsReq(root.SplitN("hand-ansreq", i), fmt.Sprintf("hand/ansreq/%d", i))
@@ -222,6 +248,7 @@ func TestVerifC12(t *testing.T) {
 		res.Sample(12, clipS(string(genHandCliReq(r).bytes())))
 	}
 
+	nRT, nHand = count(nRT), count(nHand)
 	for _, name := range []string{nPollReq, nPollResp, nAnsReq, nCliReq, nCliResp} {
 		res.RequireObs("roundtrip:"+name, int64(nRT/4))
 		res.RequireObs("handwritten_valid:"+name, int64(nHand))
@@ -229,8 +256,8 @@ func TestVerifC12(t *testing.T) {
 		res.RequireObs("accepted:"+name+":handwritten", 1)
 	}
 	res.RequireObs("roundtrip:"+nAnsResp, 2)
-	res.RequireObs("roundtrip:"+nPollResp+":match", 1000)
-	res.RequireObs("roundtrip:"+nPollResp+":no-match", 100)
+	res.RequireObs("roundtrip:"+nPollResp+":match", int64(nRT/4))
+	res.RequireObs("roundtrip:"+nPollResp+":no-match", int64(nRT/20))
 	for _, k := range []string{
 		"default_nat_unknown_applied", "default_fingerprint_applied", "default_type_unknown_applied", "default_relay_pattern_absent_reported_unsupported",
 		"fingerprint_32_bytes_roundtrip", "strings_with_nul", "strings_with_astral", "strings_with_quote_or_backslash", "strings_64k", "int_extremes",
